@@ -3,7 +3,7 @@ import collections
 
 from .. import core, e1
 from ..core import Result, outcome, enc, dec
-from ..tables.options import option_sets
+from ..tables.options import option_sets, option_combos
 
 ID = 'C02'
 TECHNIQUE = 'stateless bounded-deviation exhaustive exploration of the implementation (edit BFS), invariant on every accepted state'
@@ -57,6 +57,7 @@ def work(item):
         transitions = transitions // nparts
     res['transitions'] = transitions
     optsets, unknown = option_sets(name, m.validate)
+    optsets = optsets + option_combos(name, m.validate)
     n = acc = 0
     values = set()
     for opts in optsets:
